@@ -348,6 +348,62 @@ func checkEnvelopeBuilder(c *Ctx, rule string, fn *ssa.Function) {
 	}
 	guards = append(guards, guard{"payload-within-max_body-or-empty", append(append([]Edge{}, sizeOK...), emptyPayload...)})
 	guards = append(guards, guard{"headers-within-max_headers", hdrOK})
+	// what is measured against max_headers is the size of the headers as they are stored: a sum of len(name) and
+	// len(value) over the header map itself, not over trimmed or otherwise transformed copies
+	nMeasured := 0
+	for _, e := range hdrOK {
+		a, _ := edgeAtom(e)
+		var lens []*ssa.Call
+		seenV := map[ssa.Value]bool{}
+		var walk func(v ssa.Value, d int)
+		walk = func(v ssa.Value, d int) {
+			if v == nil || d > 14 || seenV[v] {
+				return
+			}
+			seenV[v] = true
+			switch x := v.(type) {
+			case *ssa.BinOp:
+				walk(x.X, d+1)
+				walk(x.Y, d+1)
+			case *ssa.Phi:
+				for _, ed := range x.Edges {
+					walk(ed, d+1)
+				}
+			case *ssa.Convert:
+				walk(x.X, d+1)
+			case *ssa.ChangeType:
+				walk(x.X, d+1)
+			case *ssa.Call:
+				if builtinCall(x, "len") != nil {
+					lens = append(lens, x)
+					return
+				}
+				if f := x.Call.StaticCallee(); f != nil && IsModuleFunc(f) && len(f.Blocks) > 0 {
+					// a size helper that was not expanded: its returned sums
+					for _, r := range returnsOf(p.View(f)) {
+						for _, res := range r.Results {
+							walk(res, d+1)
+						}
+					}
+				}
+			}
+		}
+		walk(a.X, 0)
+		for _, lc := range lens {
+			nMeasured++
+			arg := stripConv(lc.Call.Args[0])
+			raw := false
+			if ex, ok := arg.(*ssa.Extract); ok {
+				if _, isNext := ex.Tuple.(*ssa.Next); isNext {
+					raw = true
+				}
+			}
+			c.Check(raw, rule, fmt.Sprintf("%s:header size term #%d measures the stored bytes", name, nMeasured), p.InstrPos(lc),
+				"len() of the header map's own key/value",
+				"the size compared with max_headers counts "+shortVal(arg)+", not the header name/value as stored: padding that the measure drops is stored and delivered, so a message exceeding max_headers is accepted")
+		}
+	}
+	c.Check(nMeasured >= 2, rule, name+":header size is a sum over names and values", p.Pos(fn.Pos()), fmt.Sprintf("%d len() terms", nMeasured), "the value compared with max_headers is not a sum of len(name)+len(value) over the header map")
 	valOK, nVal := one(func(ci ssa.CallInstruction) bool {
 		f := ci.Common().StaticCallee()
 		return f != nil && f.Pkg != nil && strings.HasSuffix(f.Pkg.Pkg.Path(), "/internal/httpheader")
